@@ -251,13 +251,21 @@ func main() {
 		special := map[int]int{}
 		family := i % 4
 		mut := "none"
+		names := []string{"", "key-of-other-as(honest-id)", "key-of-other-as(right-name)",
+			"cert-starts-after-ts", "cert-ends-before-hop-expiry", "cert-ends-at-hop-expiry"}
 		if family == 1 { // signer problems at signing time
 			k := rng.Intn(ne)
 			kind := 1 + rng.Intn(5)
 			special[k] = kind
-			mut = []string{"", "key-of-other-as(honest-id)", "key-of-other-as(right-name)",
-				"cert-starts-after-ts", "cert-ends-before-hop-expiry",
-				"cert-ends-at-hop-expiry"}[kind]
+			mut = names[kind]
+			// the certificate-window variants once for EVERY position of the segment (the bound must be the
+			// entry's own hop lifetime, whatever the other entries' lifetimes are)
+			for kk := 0; kk < ne; kk++ {
+				for _, kd := range []int{signCertLate, signCertEarly, signCertExact} {
+					wps, wt := b.build(ne, exps, 0, 0, map[int]int{kk: kd})
+					verify(names[kd], t0, b.tsRe, append([]byte{}, wps.Info.Raw...), 0, wt)
+				}
+			}
 		}
 		ps, tags := b.build(ne, exps, 0, 0, special)
 		info := append([]byte{}, ps.Info.Raw...)
